@@ -166,7 +166,7 @@ def run(ctx, observer_factory=None, jobfn=None):
                             closed=st["frontier_empty"]))
         for sig, (msg, rp) in viols.items():
             ctx.violation(sig, f"{sj}: {msg}", rp)
-    if jobfn is None and not {"zero-swap-in-flight", "two-jobs-in-flight"} <= flags:
+    if jobfn is None and not ctx.violations and not {"zero-swap-in-flight", "two-jobs-in-flight"} <= flags:
         from vf.runner import HarnessError
 
         raise HarnessError(f"C03 vacuous: flags {flags}")
